@@ -405,6 +405,12 @@ def run(model, tier="quick"):
     effects_check(res, model, F + "buy_squeeth", REF_BUY_SQTH, "long side: buy oSQTH on the pool (ETH budget / oSQTH price)", WALLET + ["buy", "sell"], opaque=OPQ)
     effects_check(res, model, F + "sell_squeeth", REF_SELL_SQTH, "long side: sell oSQTH on the pool", WALLET + ["buy", "sell"], opaque=OPQ)
     res.floor("post_dominance_ops", post_dominance(model, res), 4)
+    from . import C01 as _C01, C03 as _C03
+    effects_check(res, model, "UniLpMarket.transfer_position_out", _C01.REF_TRANSFER_OUT, "an LP position can be lent to ONE vault only", _C01.FX, keep_raise_effects=True)
+    effects_check(res, model, "UniLpMarket.transfer_position_in", _C01.REF_TRANSFER_IN, "only a lent position is taken back", _C01.FX, keep_raise_effects=True)
+    effects_check(res, model, "SqueethMarket._redeem_uni_token", _C01.REF_REDEEM, "redeemed LP amounts include the accrued fees (collect_fee's amounts)", _C01.FX)
+    wfx = ["sub", "add", "subtract_from_balance", "add_to_balance", "__add_asset", "_record_action_callback"]
+    effects_check(res, model, "Asset.sub", _C03.REF_ASSET_SUB, "wallet debit: an empty or insufficient balance rejects", wfx)
     from ..rules.fresh import fresh_rule
     if "R-FRESH" not in res.rules:
         res.rules.append("R-FRESH")
